@@ -161,6 +161,15 @@ func (self *Interpreter) forStatement(node ast.AnalyzedForStatement) *value.Inte
 		iterVal = value.NewValueList(snapshot)
 	}
 
+	// Strings and ranges keep their iteration state inside the value: iterate over a fresh copy so that
+	// nested loops over the same value do not share (and endlessly reset) one cursor.
+	if str, isStr := (*iterVal).(value.ValueString); isStr {
+		iterVal = value.NewValueString(str.Inner)
+	}
+	if rng, isRange := (*iterVal).(value.ValueRange); isRange {
+		iterVal = value.NewValueRange(*rng.Start, *rng.End, rng.EndIsInclusive)
+	}
+
 	iterator := (*iterVal).IntoIter()
 
 	// add a new scope for the loop
